@@ -19,7 +19,7 @@ for e in ents:
         rp.write_text(json.dumps({"property": e["property"], "engine": e["replay"]["engine"], "case": e["replay"]["case"]}))
         r = subprocess.run([str(V / "run.py"), e["property"], "--replay", str(rp)], capture_output=True, text=True,
                            env=dict(os.environ, VERIF_REPO=wt), cwd=V)
-        sigs = [l.split("] ", 1)[1].split(":")[0] for l in r.stdout.splitlines() if l.strip().startswith("[")]
+        sigs = [l.split("] ", 1)[1].split(": ")[0] for l in r.stdout.splitlines() if l.strip().startswith("[")]
         pats = e["signature"] if isinstance(e["signature"], list) else [e["signature"]]
         hit = any(fnmatch.fnmatchcase(s, p) for s in sigs for p in pats)
         r2 = subprocess.run([str(V / "run.py"), e["property"], "--replay", str(rp)], capture_output=True, text=True, cwd=V)
